@@ -149,6 +149,10 @@ def compare(impl, model, channels, canon=None):
                     diffs.append((hid, i, op, "cascade-outcome", pr[0], pr[1]))
                     found = True
                     break
+                if pr is not None:
+                    # same order-independent outcome, and nothing that ran after the announcement handed out a serial
+                    # or an ordinal: the two sides are in the same state up to the usual canonicalisation; go on
+                    continue
             if canon and op.startswith("rmc ") and il != ml:
                 # `remove_component` despawns the entities that have the component in an unspecified order, and handlers of
                 # the RemoveComponent / Despawn notifications can make the outcome depend on that order (ordinals, serials,
